@@ -88,6 +88,35 @@ def feed(dec, ev: Ev, fmt="ebyte"):
     return dec.decode_yacht_devices_string(wire.yd_line(ev.ident(), ev.data).strip())
 
 
+ACTISENSE_UPTIMES = ["A000000.000", "A000057.055", "A000599.999", "A000600.000", "A000601.500", "A086400.000", "A999999.999"]
+PLAIN_STAMPS = ["2024-01-01-00:00:00.000", "2012-06-17-15:02:11.000", "2031-01-01T00:00:00.000Z", "1999-12-31-23:59:59.999"]
+
+
+def feed_any(dec, ev: Ev, rng):
+    """The same frame through a randomly chosen input format (and whatever timestamp that format carries): frame-level
+    formats for fast-packet frames, additionally the whole-message text formats for single frames and claims."""
+    pdu1 = ((ev.pgn >> 8) & 0xFF) < 240
+    d_eff = ev.dst if pdu1 else 255
+    fmts = ["ebyte", "usb", "yd", "plain", "usb_bytearray"] + (["actisense", "actisense", "plain_combined"] if ev.tag != "fast" else [])
+    fmt = rng.choice(fmts)
+    if fmt in ("ebyte", "usb", "yd"):
+        return feed(dec, ev, fmt)
+    if fmt == "usb_bytearray":
+        return dec.decode_usb(bytearray(wire.usb_frame(ev.ident(), ev.data)))
+    if fmt == "plain":
+        return dec.decode_basic_string(wire.plain_line(ev.prio, ev.pgn, ev.src, d_eff, ev.data, rng.choice(PLAIN_STAMPS)))
+    if fmt == "plain_combined":
+        return dec.decode_basic_string(wire.plain_line(ev.prio, ev.pgn, ev.src, d_eff, ev.data, rng.choice(PLAIN_STAMPS)), already_combined=True)
+    return dec.decode_actisense_string(wire.actisense_line(ev.prio, ev.pgn, ev.src, d_eff, ev.data, rng.choice(ACTISENSE_UPTIMES)))
+
+
+def safe_feed_any(dec, ev, rng):
+    try:
+        return ("ok", feed_any(dec, ev, rng))
+    except Exception as e:  # noqa: BLE001
+        return ("exc", type(e).__name__)
+
+
 def safe_feed(dec, ev, fmt="ebyte"):
     try:
         return ("ok", feed(dec, ev, fmt))
